@@ -33,6 +33,11 @@ type Outcome struct {
 	Digest     uint64
 	// Infra is set for harness/infrastructure trouble: never a VIOLATION, the check exits 2.
 	Infra string
+	// Narrowed maps a finding's tag to a scenario that pins down the failing case inside a
+	// scenario that enumerates many (e.g. the one sink offset out of all offsets).
+	Narrowed map[string]any
+	// Evals is the number of executions this scenario stands for (default 1).
+	Evals int
 }
 
 func (o *Outcome) stat(k string, n int) {
@@ -173,6 +178,9 @@ func RunWorker(t *testing.T, a WorkerArgs) {
 		}
 		out := p.Exec(t, sc)
 		res.Runs++
+		if out.Evals > 1 {
+			res.Runs += out.Evals - 1
+		}
 		res.SimNs += out.SimNs
 		res.Steps += int64(out.Steps)
 		if res.Digests != nil {
@@ -210,6 +218,9 @@ func RunWorker(t *testing.T, a WorkerArgs) {
 				continue
 			}
 			raw, _ := json.Marshal(sc)
+			if n, ok := out.Narrowed[f.Tag]; ok {
+				raw, _ = json.Marshal(n)
+			}
 			byTag[f.Tag] = len(res.Violations)
 			res.Violations = append(res.Violations, Violation{Tag: f.Tag, Detail: f.Detail, Index: i, Scenario: raw, Count: 1})
 		}
